@@ -266,3 +266,7 @@ Fixpoint spec_shistory (ops : list sop) (s : bstore) : list bstore :=
   | [] => []
   | op :: rest => let s' := spec_sop s op in s' :: spec_shistory rest s'
   end.
+
+(* set the fault schedule: the k-th allocation from now fails *)
+Definition swith_fail (st : sstate) (k : option nat) : sstate :=
+  mksstate (sobjs st) (mkheap (blocks (shp st)) (nextb (shp st)) k).
